@@ -592,6 +592,7 @@ class _ChunkWorld(World):
 
   def __init__(self, layout):
     self.layout = layout
+    self.attrs = {}
     self.n = sum(c for c, _ in layout)
     self.pools = {}
     self.draws = []
@@ -600,15 +601,24 @@ class _ChunkWorld(World):
     self.notes = []
 
   def attr(self, it, v, attr, node):
+    if v == S('self') and attr in self.attrs:
+      return self.attrs[attr]
     if v == S('self') and attr == 'partial_labels':
       return S('pl')
     if v == S('pl') and attr == 'shape':
       return (self.n,)
     return NotImplemented
 
-  def name(self, it, ident):
-    if ident == 'int':
-      return S('dtype')
+  def setattr(self, it, obj, attr, value, node):
+    if obj == S('self'):
+      self.attrs[attr] = value
+      return None
+    return NotImplemented
+
+  def subscript(self, it, base, idx, node):
+    if base == S('uniq') and isinstance(idx, int) and \
+            -len(self.layout) <= idx < len(self.layout):
+      return S('label', idx % len(self.layout))
     return NotImplemented
 
   def compare(self, it, op, a, b, node):
@@ -620,6 +630,14 @@ class _ChunkWorld(World):
       neg = Arr((int(not k) for _, k in self.layout), mask=True)
       return neg if isinstance(op, ast.LtE) else Arr((1 - x for x in neg.xs),
                                                      mask=True)
+    if tg(a) == 'label' and isinstance(b, int) and b in (0, -1):
+      known = self.layout[a[1]][1]
+      if (isinstance(op, ast.GtE) and b == 0) or \
+              (isinstance(op, ast.Gt) and b == -1):
+        return known
+      if (isinstance(op, ast.Lt) and b == 0) or \
+              (isinstance(op, ast.LtE) and b == -1):
+        return not known
     if a == S('lookup') and isinstance(b, int) and \
             isinstance(op, (ast.Eq, ast.NotEq)):
       return S('cmask', b, isinstance(op, ast.Eq))
@@ -645,9 +663,6 @@ class _ChunkWorld(World):
   def _pool_size(self, m):
     c, _k = self.layout[m[1]]
     return c if m[2] else self.n - c
-
-  def subscript(self, it, base, idx, node):
-    return NotImplemented
 
   def store(self, it, base, idx, value, node):
     if tg(base) == 'carr':
@@ -737,6 +752,9 @@ class _ChunkWorld(World):
                 and len(args) == 1:
           return (S('uniq'), S('lookup'))
         raise Undecided('np.unique options')
+      if short in ('asanyarray', 'asarray', 'array') and args and \
+              args[0] in (S('pl-arg'), S('pl')):
+        return S('pl')
       if short in ('where', 'nonzero', 'flatnonzero') and len(args) == 1:
         m = args[0]
         if isinstance(m, Arr):
@@ -816,8 +834,18 @@ def rule_chunks_interp(repo, rep):
       env0 = {'self': S('self'), 'n_chunks': want, 'chunk_size': size,
               'random_state': S('seed'), 'num_chunks': 'deprecated'}
       ncombo += 1
+
+      def make_w(layout=layout):
+        w = _ChunkWorld(layout)
+        init_ = cons.methods.get('__init__')
+        if init_ is not None and len(init_.params()) == 2:
+          r = Interp(repo, init_, w).run({'self': S('self'),
+                                          init_.params()[1]: S('pl-arg')})
+          if r[0] == 'raise':
+            raise Undecided('constructor raises')
+        return w
       try:
-        for w, out, it in runs(repo, f, lambda: _ChunkWorld(layout),
+        for w, out, it in runs(repo, f, make_w,
                                lambda w: dict(env0), limit=600):
           nrun += 1
           if out[0] == 'raise':
@@ -893,6 +921,72 @@ def rule_chunks_interp(repo, rep):
     else:
       rep.unknown(R, key, site(f, v[2]) if v[2] is not None else site(f),
                   v[1])
+  # repeated calls on one Constraints object with the same seed give the
+  # same chunks: the constructor and two successive calls are interpreted on
+  # one world (object state persists), with one choice sequence
+  init = cons.methods.get('__init__')
+  hist = None       # (kind, detail, node)
+  nh = 0
+  for layout in layouts[:2]:
+    for (size, want) in ((2, 1), (2, 2)):
+      tag = 'class sizes %s, chunk_size=%d, n_chunks=%d' % (
+          [c for c, k in layout if k], size, want)
+      env0 = {'self': S('self'), 'n_chunks': want, 'chunk_size': size,
+              'random_state': S('seed'), 'num_chunks': 'deprecated'}
+
+      def make():
+        w = _ChunkWorld(layout)
+        if init is not None:
+          ips = init.params()
+          ienv = {'self': S('self')}
+          if len(ips) == 2:
+            ienv[ips[1]] = S('pl-arg')
+          r = Interp(repo, init, w).run(ienv)
+          if r[0] == 'raise':
+            raise Undecided('constructor raises')
+        return w
+
+      def summary(w, out):
+        if out[0] == 'raise':
+          return ('raise', out[1][0])
+        return ('return', tuple(
+            (w.pools[w.draws[i[1]]['pool']]['cls'], w.draws[i[1]]['size'], v)
+            for (_a, i, v, _n) in w.stores if tg(i) == 'draw'))
+      try:
+        for w, out, it in runs(repo, f, make, lambda w: dict(env0),
+                               limit=300):
+          nh += 1
+          s1 = summary(w, out)
+          n1, d1 = len(w.stores), len(w.draws)
+          it2 = Interp(repo, f, w, [c for c, _ in it.taken])
+          out2 = it2.run(dict(env0))
+          w2 = w
+          if out2[0] == 'raise':
+            s2 = ('raise', out2[1][0])
+          else:
+            s2 = ('return', tuple(
+                (w2.pools[w2.draws[i[1]]['pool']]['cls'],
+                 w2.draws[i[1]]['size'], v)
+                for (_a, i, v, _n) in w2.stores[n1:] if tg(i) == 'draw'))
+          if s1 != s2 or [a for a, _ in it2.taken] != \
+                  [a for a, _ in it.taken][:len(it2.taken)] or \
+                  len(it2.taken) != len(it.taken):
+            if hist is None or hist[0] == 'unknown':
+              hist = ('refuted', 'a second chunks() call on the same '
+                      'Constraints object with the same seed differs from '
+                      'the first: %s then %s (%s) - the call changes the '
+                      'object\'s state' % (s1, s2, tag), None)
+      except Undecided as u:
+        if hist is None:
+          hist = ('unknown', '%s (%s)' % (u, tag), None)
+  key = 'Constraints.chunks:repeatable'
+  if hist is None:
+    rep.derived(R, key, site(f), sample=dict(rule=R, clause='repeatable',
+                                             runs=nh))
+  elif hist[0] == 'refuted':
+    rep.refuted(R, key, site(f), hist[1])
+  else:
+    rep.unknown(R, key, site(f), hist[1])
   rep.floor('chunk layouts x requests interpreted', ncombo, 28)
   return dict((c, verdict.get(c, ('derived',))[0]) for c in clauses)
 
